@@ -11,13 +11,14 @@ import (
 // tval is the value of a triple of the universe.
 type tval struct {
 	sb, pb, ob byte
-	pk, pa, ok int
+	pk, pa, ok int // ok: 0 node, 1 text, 3 immutable predicate object, 4 temporal predicate object at anchors[oa]
+	oa         int
 }
 
-func (d *dspec) tv() tval { return tval{d.sb, d.pb, d.ob, d.pk, d.pa, d.ok} }
+func (d *dspec) tv() tval { return tval{sb: d.sb, pb: d.pb, ob: d.ob, pk: d.pk, pa: d.pa, ok: d.ok, oa: d.oa} }
 
 func (a tval) eq(b tval) bool {
-	if a.pk != b.pk || a.ok != b.ok || (a.pk == 1 && a.pa != b.pa) {
+	if a.pk != b.pk || a.ok != b.ok || (a.pk == 1 && a.pa != b.pa) || (a.ok == 4 && a.oa != b.oa) {
 		return false
 	}
 	return verif.And(a.sb == b.sb, verif.And(a.pb == b.pb, a.ob == b.ob))
@@ -49,6 +50,26 @@ func tvalOf(t *triple.Triple) (tval, bool) {
 			return v, false
 		}
 		v.ob = n.ID().String()[0]
+		return v, true
+	}
+	if op, err := o.Predicate(); err == nil {
+		if len(op.ID()) != 1 {
+			return v, false
+		}
+		v.ob, v.ok = string(op.ID())[0], 3
+		if op.Type() == predicate.Temporal {
+			v.ok = 4
+			ta, _ := op.TimeAnchor()
+			v.oa = -1
+			for i, a := range anchors {
+				if ta.Equal(a) {
+					v.oa = i
+				}
+			}
+			if v.oa < 0 {
+				return v, false
+			}
+		}
 		return v, true
 	}
 	l, err := o.Literal()
@@ -160,7 +181,7 @@ func HarnessC04Statement() {
 		g.AddTriples(ctx, dtriples(ds))
 		return ds
 	}
-	temporalG := verif.Param("CASE", -1) == 12
+	temporalG := verif.Param("CASE", -1) == 12 || verif.Param("CASE", -1) == 13
 	mkGraphT := func(name string, K int) []*dspec {
 		g, err := st.NewGraph(ctx, name)
 		verif.Assume(err == nil)
@@ -197,7 +218,7 @@ func HarnessC04Statement() {
 	}
 	cs := verif.Param("CASE", -1)
 	if cs < 0 {
-		cs = verif.Choice("case", 13)
+		cs = verif.Choice("case", 14)
 	}
 	switch cs {
 	case 0:
@@ -244,6 +265,13 @@ func HarnessC04Statement() {
 		q = "construct { ?s \"b\"@[?t] ?o } into ?h from ?g where { ?s \"a\"@[?t] ?o } ;"
 		for _, d := range dg {
 			expH = append(expH, expected{tval{sb: d.sb, pb: 'b', ob: d.ob, ok: d.ok, pk: 1, pa: d.pa}, verif.And(d.pk == 1, d.pb == 'a')})
+		}
+	case 13:
+		// a template object that is a predicate with an anchor binding, next to a
+		// template predicate with an anchor of its own (a constant one)
+		q = "construct { ?s \"b\"@[" + anchors[1].Format(tfmt) + "] \"c\"@[?t] } into ?h from ?g where { ?s \"a\"@[?t] ?o } ;"
+		for _, d := range dg {
+			expH = append(expH, expected{tval{sb: d.sb, pb: 'b', pk: 1, pa: 1, ob: 'c', ok: 4, oa: d.pa}, verif.And(d.pk == 1, d.pb == 'a')})
 		}
 	case 11:
 		// reification where rows differ only in a binding used after the ';': still
